@@ -171,7 +171,11 @@ class EdgeQLPathInfo(Base):
     is_distinct: bool = True
 
     # A subset of paths necessary to perform joining.
-    path_bonds: typing.Set[tuple[irast.PathId, bool]] = ast.field(factory=set)
+    # (Used as an insertion-ordered set: the iteration order ends up in
+    # the generated SQL, which must not change from one compilation of the
+    # same query to the next.)
+    path_bonds: typing.Dict[tuple[irast.PathId, bool], None] = ast.field(
+        factory=dict)
 
     # Whether to ignore namespaces when looking at path outputs.
     # TODO: Maybe instead, Relation should have a way of specifying
